@@ -30,18 +30,22 @@ fn seed_bytes(i: usize, len: usize) -> Vec<u8> {
 }
 
 fn root(i: usize) -> Bip32PrivateKey {
+    root_opt(i).expect("harness: root key")
+}
+/// None when the library refuses a structurally valid imported key (reported by the caller as a violation)
+fn root_opt(i: usize) -> Option<Bip32PrivateKey> {
     // entropy of 16 / 20 / 32 bytes, with and without a passphrase
     let (len, pw): (usize, &[u8]) = [(16, b"" as &[u8]), (20, b"x"), (32, b""), (32, b"passphrase")][i % 4];
     let k = Bip32PrivateKey::from_bip39_entropy(&seed_bytes(i % 4, len), pw);
     if i < 4 {
-        return k;
+        return Some(k);
     }
     // roots 4..7: the same key material IMPORTED as raw bytes with the third-highest scalar bit set.
     // Such a key is structurally valid (lowest three bits clear, highest two bits 01) but is not in
     // the form key generation produces; every codec has to carry it unchanged.
     let mut b = k.as_bytes();
     b[31] |= 0x20;
-    Bip32PrivateKey::from_bytes(&b).expect("harness: imported xprv")
+    Bip32PrivateKey::from_bytes(&b).ok()
 }
 
 #[derive(Clone, Copy, Debug, PartialEq)]
@@ -56,7 +60,11 @@ enum KeyKind {
 }
 
 fn private_key(kind: KeyKind, seed: usize) -> PrivateKey {
-    match kind {
+    private_key_opt(kind, seed).expect("harness: key of the alphabet")
+}
+/// None when the library refuses a structurally valid key of the alphabet
+fn private_key_opt(kind: KeyKind, seed: usize) -> Option<PrivateKey> {
+    Some(match kind {
         KeyKind::Normal => PrivateKey::from_normal_bytes(&seed_bytes(seed, 32)).unwrap(),
         KeyKind::Extended => PrivateKey::from_extended_bytes(&root(seed).derive(seed as u32).to_raw_key().as_bytes()).unwrap(),
         KeyKind::Bip32Raw => root(seed).derive(0x8000_0000 + seed as u32).derive(7).to_raw_key(),
@@ -70,9 +78,9 @@ fn private_key(kind: KeyKind, seed: usize) -> PrivateKey {
             b[0] &= 248;
             b[31] &= 63;
             b[31] |= 64 | 0x20;
-            PrivateKey::from_extended_bytes(&b).expect("harness: expanded extended key")
+            return PrivateKey::from_extended_bytes(&b).ok();
         }
-    }
+    })
 }
 
 fn message(i: usize) -> Vec<u8> {
@@ -101,7 +109,10 @@ fn sc_sign(ctx: &mut Ctx) {
     let kind = kinds[ctx.choose_free(kinds.len())];
     let seed = ctx.choose_free(3);
     let mi = ctx.choose_free(8);
-    let sk = private_key(kind, seed);
+    let sk = match private_key_opt(kind, seed) {
+        Some(k) => k,
+        None => return ctx.violation(format!("{}/structurally-valid-key-refused/{:?}", P, kind), format!("{:?} key #{}: the loader refuses a correctly clamped key", kind, seed)),
+    };
     let pk = sk.to_public();
     let msg = message(mi);
     let what = || format!("{:?} key #{} message of {} bytes", kind, seed, msg.len());
@@ -168,7 +179,7 @@ fn sc_sign(ctx: &mut Ctx) {
         for s2 in 0..3 {
             if (k2, s2) != (kind, seed) {
                 neg += 1;
-                if private_key(k2, s2).to_public().verify(&msg, &sig) {
+                if private_key_opt(k2, s2).map(|k| k.to_public().verify(&msg, &sig)).unwrap_or(false) {
                     bad(ctx, "public-key", format!("{:?} key #{}", k2, s2));
                 }
             }
@@ -439,7 +450,10 @@ fn sc_derive(alphabet: Vec<u32>, depth: usize) -> impl Fn(&mut Ctx) + Sync {
         let what = || format!("root #{} path {:x?}", ri, path);
         ctx.set_sample(|| what());
         ctx.observe(&(ri, &path));
-        let mut sk = root(ri);
+        let mut sk = match root_opt(ri) {
+            Some(k) => k,
+            None => return ctx.violation(format!("{}/structurally-valid-key-refused/Bip32PrivateKey", P), what()),
+        };
         let mut pk: Option<Bip32PublicKey> = Some(sk.to_public());
         for (d, i) in path.iter().enumerate() {
             ctx.compared();
